@@ -832,6 +832,28 @@ class OneShot:
         return r
 
 
+class LazyShot(OneShot):
+    """a generator expression: its body runs when it is first consumed - with the values the free variables have
+    then (late binding) -, and it yields its items once.  (Run as a whole at the first consumption: a consumer that
+    stops early, next(g), still sees the side effects of the complete run - none in the code under contract.)"""
+
+    def __init__(self, thunk):
+        self.thunk = thunk
+        self._items = None
+
+    @property
+    def items(self):
+        if self.thunk is not None:
+            t, self.thunk = self.thunk, None
+            self._items = list(t())
+        return self._items
+
+    @items.setter
+    def items(self, v):
+        self.thunk = None
+        self._items = v
+
+
 def iterate(I, it):
     """finite list of the elements of an iterable value"""
     if isinstance(it, (list, tuple)):
